@@ -360,6 +360,27 @@ impl Mut {
     }
 }
 
+const CHUNK_OPS: &[&str] = &["delete", "duplicate", "swap", "to-end", "to-front", "size+1", "size-1", "size=max", "size=0", "size=rest+1", "size=2^31", "truncate-payload", "empty-payload", "magic-flip"];
+
+impl Mut {
+    /// Inverse of `describe` (witness files name a mutant by what it does, not by its position in the plan).
+    pub fn from_json(v: &Value) -> Option<Mut> {
+        let us = |k: &str| v[k].as_u64().map(|x| x as usize);
+        match v["kind"].as_str()? {
+            "identity" => Some(Mut::Identity),
+            "prefix" => Some(Mut::Prefix(us("len")?)),
+            "field" => Some(Mut::Field { off: us("offset")?, width: us("width")? as u8, val: v["value"].as_u64()?, tag: "witness" }),
+            "chunk" => {
+                let op = v["op"].as_str()?;
+                let op = CHUNK_OPS.iter().find(|o| **o == op)?;
+                Some(Mut::Chunk { op, off: us("chunk_offset")?, other: us("other_offset").unwrap_or(0) })
+            }
+            "havoc" => Some(Mut::Havoc(v["n"].as_u64()?)),
+            _ => None,
+        }
+    }
+}
+
 fn stable_hash(s: &str) -> u64 {
     vh_common::fnv64(s.as_bytes())
 }
@@ -1487,7 +1508,20 @@ pub fn worker_main(formats: Vec<FormatDef>, havoc_quick: u64, havoc_thorough: u6
             }
         }
     }
-    let batches = plan(&formats, &seeds, thorough, havoc_quick, havoc_thorough);
+    let mut batches = plan(&formats, &seeds, thorough, havoc_quick, havoc_thorough);
+    // witness replay: `--wseed <label> --wmut <json as printed in a witness>` runs exactly that mutant as case 0,
+    // independent of the position the mutant has in the current plan
+    if let (Some(label), Some(mj)) = (run.args.get("wseed"), run.args.get("wmut")) {
+        let m = serde_json::from_str::<Value>(mj).ok().and_then(|v| Mut::from_json(&v));
+        let loc = seeds.iter().enumerate().find_map(|(fi, ss)| ss.iter().position(|s| s.label == label).map(|si| (fi, si)));
+        batches = match (m, loc) {
+            (Some(m), Some((fi, si))) => vec![Batch { fmt: fi, seed: si, kind: "witness", first: 0, muts: vec![m] }],
+            _ => {
+                eprintln!("c05: witness seed {label:?} or mutation {mj:?} not understood");
+                vec![]
+            }
+        };
+    }
     let only_mutant: Option<usize> = run.args.get("mutant").and_then(|s| s.parse().ok());
     let shm = Shm::new();
     let verif_seed = run.args.seed;
